@@ -170,6 +170,13 @@ func genC07(tier string, r *rng) {
 		content{"pgp-garbage-nocrc", armorNoCRC("PGP PRIVATE KEY BLOCK", []byte{0xff, 0x00, 0x01})},
 		content{"pgp-garbage", []byte("-----BEGIN PGP PUBLIC KEY BLOCK-----\n\nAAAA\n=AAAA\n-----END PGP PUBLIC KEY BLOCK-----\n")},
 		content{"pgp-other", armorNoCRC("PGP MESSAGE", []byte("hello"))},
+		content{"pgp-other", armorNoCRC("PGP SIGNATURE", r.bytes(70))},
+		content{"pgp-other", armorNoCRC("PGP ARMORED FILE", r.bytes(10))},
+		content{"pgp-other", armorNoCRC("PGP MESSAGE, PART 1/2", r.bytes(100))},
+		content{"pgp-other", armorNoCRC("PGP SIGNED MESSAGE", []byte("x"))},
+		content{"pem+pgp-other", append(append([]byte{}, fixturesOf("pem")[0].data...), armorNoCRC("PGP SIGNATURE", r.bytes(70))...)},
+		content{"pgp-other+pem", append(armorNoCRC("PGP MESSAGE", r.bytes(33)), fixturesOf("pem")[0].data...)},
+		content{"text+pgp-other+pem", append(append([]byte("signed mail\n"), armorNoCRC("PGP SIGNATURE", r.bytes(70))...), fixturesOf("pem")[1%len(fixturesOf("pem"))].data...)},
 		content{"uuid", []byte("c232ab00-9414-11ec-b3c8-9f6bdeced846\n")},
 		content{"uuid-b64", []byte("c232ab00941411ecb3c89f6bdeced846")}, // 32 hex chars: also valid base64
 		content{"jwt", []byte("eyJhbGciOiJIUzI1NiJ9.eyJzdWIiOiJ4In0.c2ln")},
